@@ -75,6 +75,9 @@ def handle (args out : List String) : Verdict :=
   -- the handler's outcome class does not depend on the peer's address family
   | ["tcpm", k, payload] => handleTcp k payload out
   | ["tcp6", k, payload] => handleTcp k payload out
+  -- through the real browser component; `idle` (nothing sent, nothing closed): the handler's read ends with the
+  -- connection deadline the TCP server set, like an empty read
+  | ["ctcp", k, payload] => handleTcp k (if payload = "idle" then "none" else payload) out
   -- measurement: `crypt.Encrypt` under the concurrency of the connection goroutines (no model: the oracle is "no panic, every round trip exact")
   | ["encpar", _, _] =>
     match out with
